@@ -128,7 +128,7 @@ def search_invariants(seed, chains, length):
             x = rand_pose(rng, cname)
             hist = []
             for step in range(length):
-                op = rng.choice(["add", "radd", "sub", "rsub", "inverse", "boxplus", "copy", "iadd"])
+                op = rng.choice(["add", "radd", "sub", "rsub", "inverse", "boxplus", "copy", "iadd", "iadd_boxplus"])
                 a, b = x, rand_pose(rng, cname)
                 if op == "add":
                     r = a + b
@@ -145,10 +145,21 @@ def search_invariants(seed, chains, length):
                 elif op == "iadd":
                     r = a.copy()
                     r += b
+                elif op == "iadd_boxplus":
+                    # an optimiser update: `pose += dx` with a raw increment (angular part unbounded: several turns are legal)
+                    c = a.COMPACT_DIMENSIONALITY
+                    sc = rng.choice([1e-6, 1e-2, 0.3, 2.0])
+                    dxv = np.array([rng.gauss(0, sc) for _ in range(c)])
+                    if cname == "PoseSE2" and rng.random() < 0.5:
+                        dxv[2] = rng.sign() * rng.logu(3.0, 1e6)
+                    r = a.copy()
+                    r += dxv
                 else:
                     c = a.COMPACT_DIMENSIONALITY
                     sc = rng.choice([1e-6, 1e-2, 0.3, 2.0])
                     r = a + np.array([rng.gauss(0, sc) for _ in range(c)])
+                    if cname == "PoseSE2" and rng.random() < 0.3:
+                        r = a + np.array([0.0, 0.0, rng.sign() * rng.logu(3.0, 1e6)])
                 # keep translations bounded so that float error stays interpretable
                 if float(np.max(np.abs(np.asarray(r)[: (2 if cname == "PoseSE2" else 3)]))) > 1e6:
                     r = rand_pose(rng, cname)
@@ -166,8 +177,14 @@ def search_invariants(seed, chains, length):
                         return dict(kind="unit_quaternion", op=op, step=step, norm=nrm, result=np.asarray(r).tolist(), a=np.asarray(a).tolist(), b=np.asarray(b).tolist()), ev, worst_norm
     # normalize()
     rng = Rng(seed, "search_inv|normalize")
-    for k in range(200):
+    for k in range(300):
         q = np.array(rng.unit_quat()) * rng.logu(1e-3, 1e3)
+        if k % 3 == 0:  # exactly-unit inputs of either sign (already normalised data, e.g. results of compositions)
+            q = np.array(rng.unit_quat())
+            if k % 2 == 0:
+                q = -np.abs(q[3]) * np.array([0, 0, 0, 1.0]) + np.array([q[0], q[1], q[2], 0.0])
+        if k % 7 == 0:
+            q = np.asarray((PoseSE3([0, 0, 0], rng.unit_quat()) + PoseSE3([0, 0, 0], rng.unit_quat())))[3:]
         p = PoseSE3([rng.scalar(), rng.scalar(), rng.scalar()], q)
         M0 = H(p)
         p.normalize()
